@@ -225,6 +225,12 @@ func init() {
 	z["zzBytesEq"] = func(fr *frame, a []value) value {
 		return fr.m.bytesEq(a[0].([]value), a[1].([]value))
 	}
+	z["zzParam"] = func(fr *frame, a []value) value {
+		if v, ok := fr.m.Params[argStr(a[0])]; ok {
+			return v
+		}
+		return int(asInt64(a[1]))
+	}
 	z["zzNote"] = func(fr *frame, a []value) value {
 		fr.m.path.Notes["note:"+argStr(a[0])]++
 		return nil
